@@ -153,7 +153,7 @@ def _tree(task):
 
 
 def trees(tier):
-    t = S.D1() + S.D2()
+    t = S.D1() + S.D2() + S.DX()
     if tier != "quick":
         t += S.D3_quick() + S.D3flow()
     return t
